@@ -17,6 +17,14 @@ def stream(file=sys.stdout):
         os.makedirs(basedir, exist_ok=True)
         file = open(filename, 'w')
 
+    def restart():
+        # every run of the step writes its own file from the start (a failed run may be retried)
+        nonlocal file
+        if filename:
+            if not file.closed:
+                file.close()
+            file = open(filename, 'w')
+
     def write(obj):
         file.write(ejson.dumps(obj, ensure_ascii=True)+'\n')
         file.flush()
@@ -35,6 +43,7 @@ def stream(file=sys.stdout):
 
     def func(package):
         failures.clear()
+        restart()
         write(package.pkg.descriptor)
         yield package.pkg
         for res in package:
